@@ -206,6 +206,7 @@ func (c *Client) HandlePresence(p stanza.Presence, r xmlstream.TokenReadEncoder)
 		case c := <-channel.join:
 			select {
 			case c.j <- p.From:
+				channel.joined = true
 				return nil
 			case <-c.done:
 				// If the call to Join has timed out, try again to see if we have a
@@ -220,6 +221,7 @@ func (c *Client) HandlePresence(p stanza.Presence, r xmlstream.TokenReadEncoder)
 		}
 	case stanza.UnavailablePresence:
 		delete(c.managed, channel.addr.String())
+		channel.joined = false
 		verifhook.Yield("muc.depart.notify", p.From.String())
 		select {
 		case channel.depart <- struct{}{}:
